@@ -224,10 +224,14 @@ Rules(ch, N) ==
             <<N.l = cBQUOTE, <<Poly(<<pf, po, pp>>)>> >>,
             <<N.l = cDOT, <<Poly(<<pf, po, pp>>)>> >>,
             <<N.l = cGT, <<Poly(<<pf, po, pp>>)>> >> >>
-    [] ch = cHASH ->       \* deliberate omission: the diamond drawn for a diagonal neighbour (its vertices are the one
-                           \* non-dyadic constant of the tables, +-1.4 quarter steps); model-checking alphabets keep
-                           \* diagonal strokes away from '#'
+    [] ch = cHASH ->       \* the small filled box drawn for a diagonal neighbour has the one non-dyadic constant of the
+                           \* tables: its vertices are the cell centre +-1.4 quarter steps in x (+-2.8 lattice units) and +-2
+                           \* in y.  The lattice is integral, so the model records each x to the unit below (6.8 -> 6,
+                           \* 1.2 -> 1), exactly as the comparison does with the real polygon (runner.real_tuples,
+                           \* stages.frag): a deviation named here, confined to this one polygon.
          << <<Med(N.t, pr, pw) \/ Med(N.b, pc, ph) \/ Med(N.l, pn, po) \/ Med(N.r, pk, pl), <<FilledBox(pf, pt)>> >>,
+            <<Med(N.tl, ps, py) \/ Med(N.br, pa, pg) \/ Med(N.bl, pu, pq) \/ Med(N.tr, pe, pi),
+              <<Poly(<< <<6, 12>>, <<6, 4>>, <<1, 4>>, <<1, 12>> >>)>> >>,
             <<Med(N.t, pr, pw), <<Line(pc, ph)>> >>, <<Med(N.b, pc, ph), <<Line(pr, pw)>> >>,
             <<Str(N.tl, ps, py), <<Line(pa, pg)>> >>, <<Str(N.tr, pu, pq), <<Line(pe, pi)>> >>,
             <<Str(N.bl, pe, pi), <<Line(pu, pq)>> >>, <<Str(N.br, pa, pg), <<Line(ps, py)>> >> >>
